@@ -56,7 +56,8 @@ def gaf_record(draw, name):
     tags = draw(gen_gaf.plain_tags())
     if draw(st.integers(0, 3)) == 0:
         tags.insert(draw(st.integers(0, len(tags))), draw(st.sampled_from(
-            ["rg:Z:chr1:1000-2000", "dt:Z:2024-01-01T10:20:30", "xs:i:-5", "sr:Z:a:b", "fl:f:-1.5e-3"])))
+            ["rg:Z:chr1:1000-2000", "dt:Z:2024-01-01T10:20:30", "xs:i:-5", "sr:Z:a:b", "fl:f:-1.5e-3", "co:Z:identity 100%",
+             "pc:Z:50%%off %s %d"])))
     if draw(st.integers(0, 4)) > 0:
         tags.insert(draw(st.integers(0, len(tags))), "cg:Z:" + cg)
     if draw(st.integers(0, 5)) == 0:
